@@ -174,8 +174,11 @@ Proof. vm_compute. repeat split; reflexivity. Qed.
    writes script source. *)
 Definition d44_text : bytes := B "<script x=" ++ [34] ++ B "y" ++ [34] ++ B "</script>".
 
+(* REPAIRED (fix: look for the end tag of a special element only in the element's body, not inside its
+   start tag): the engine now refuses the text (first conjunct: it ends in the error state); the
+   tokenizer facts are unchanged *)
 Lemma C01_D44_witness :
-  end_state d44_text = Some StText /\
+  end_state d44_text = Some StError /\
   r_tokens (html_tokenize SData d44_text)
   = [StartTag (B "script") [(B "x", B "y"); (B "<", []); (B "script", [])] false] /\
   tok_final d44_text = SScriptData /\
